@@ -17,7 +17,7 @@ ID = "C18"
 LEVEL = "exploration"
 QUICK_RUNS = 16000
 BATCH = 400
-FILE_KINDS = ["accepted", "rejected-field", "rejected-unique", "sibling", "missing", "directory", "io-error"]
+FILE_KINDS = ["accepted", "rejected-field", "rejected-unique", "sibling", "missing", "directory", "io-error", "empty"]
 CID_KINDS = ["valid", "valid", "valid", "valid", "rejected", "missing", "directory"]
 RULE_TEXT = (
     "seeded scenarios: CID kind x ordered list of 0-3 data files over the six file kinds x --until x data format "
@@ -62,6 +62,8 @@ def _table(kind, number, rng):
     base = 10 * number
     if kind == "accepted":
         return [[str(base + 1), "x"], [str(base + 2), "yz"]]
+    if kind == "empty":
+        return []  # a file without any data row (nothing at all, or only the header)
     if kind == "rejected-field":
         rows = [[str(base + 1), "x"], [str(base + 2), "yz"], [str(base + 3), "abc"]]
         rows[rng.randrange(3)][0] = "x"
@@ -95,6 +97,7 @@ def generate(seed, tier):
     return {"io": simfs.IoConfig.draw(swarm), "format": fmt, "cid_kind": swarm.choice(CID_KINDS), "files": files,
             "until": until, "k": rng.randint(1, 4), "order2": order2, "header": swarm.choice([0, 0, 1]), "end_check": swarm.random() < 0.4,
             "cid_defect": swarm.choice(["unknown-type", "duplicate-field", "check-before-field"]),
+            "log": swarm.choice([None, None, "debug", "info", "warning", "error", "critical"]),
             # a file name is a name, whatever characters it is made of
             "name_style": swarm.choice(["plain", "plain", "plain", "brackets", "star", "question"])}
 
@@ -195,6 +198,9 @@ def execute(scenario):
                     verdicts.append("api-exception:" + type(value).__name__)
         # ---- the command line, in two orders ---------------------------------------------------
         options = [] if until == "absent" else ["--until", "-1" if until == "-1" else str(limit)]
+        if scenario.get("log"):
+            options = ["--log", scenario["log"]] + options  # how much is logged does not change the answer
+            result.probe("log-level-given")
         outcomes = []
         orders = [list(range(len(paths)))]
         if scenario.get("order2") and scenario["order2"] != orders[0]:
@@ -285,6 +291,8 @@ def candidates(scenario):
         yield candidate
     if scenario["until"] != "absent":
         yield lib.with_value(scenario, ["until"], "absent")
+    if scenario.get("log"):
+        yield lib.with_value(scenario, ["log"], None)
     if scenario.get("name_style", "plain") != "plain":
         yield lib.with_value(scenario, ["name_style"], "plain")
     if scenario.get("header"):
